@@ -52,13 +52,13 @@ func newOvmPool() *ovmPool {
 		must(err)
 		b64 := base64.StdEncoding.EncodeToString(der)
 		v := make([]string, ovmVariants)
-		v[0] = strings.TrimSpace(pemStr)                                                      // what a proposal stores
-		v[1] = pemStr                                                                         // pem.EncodeToMemory output (trailing newline), as in genesis files
+		v[0] = strings.TrimSpace(pemStr)                                                       // what a proposal stores
+		v[1] = pemStr                                                                          // pem.EncodeToMemory output (trailing newline), as in genesis files
 		v[2] = "-----BEGIN PUBLIC KEY-----\n" + rewrap(b64, 20) + "\n-----END PUBLIC KEY-----" // other line width
 		v[3] = "oracle key\n" + string(bytes.TrimSpace(pem.EncodeToMemory(&pem.Block{Type: "ED25519 PUBLIC KEY", Bytes: der})))
 		v[4] = fmt.Sprintf("not-a-pem-%d", k)
 		v[5] = strings.TrimSpace(string(pem.EncodeToMemory(&pem.Block{Type: "PUBLIC KEY", Bytes: der[:len(der)-3]}))) // truncated DER
-		v[6] = fmt.Sprintf("-----BEGIN PUBLIC KEY-----\n%%%d%%\n-----END PUBLIC KEY-----", k)                          // not base64
+		v[6] = fmt.Sprintf("-----BEGIN PUBLIC KEY-----\n%%%d%%\n-----END PUBLIC KEY-----", k)                         // not base64
 		v[7] = fmt.Sprintf("-----BEGIN PUBLIC KEY-----\n%s\n-----END PUBLIC KEY-----", base64.StdEncoding.EncodeToString([]byte(fmt.Sprintf("junk-%d", k))))
 		if k == 0 {
 			v[7] = "" // the empty string (what a blank entry trims to)
@@ -128,16 +128,16 @@ func (d tkDesc) String() string {
 type tkShape int
 
 const (
-	tkGood       tkShape = iota
-	tkBadSig             // signature bytes flipped
-	tkAlgNone            // alg "none", empty signature
-	tkAlgHS256           // HS256 keyed with the PEM string of the signer
-	tkTwoSegs            // header.payload only
-	tkNoExp              // no exp claim
-	tkNotJSON            // payload segment is not JSON
-	tkNotB64             // payload segment is not base64url
-	tkExtraSeg           // a fourth segment appended to a good token
-	tkSigOtherMsg        // good signature of another payload (signature transplant)
+	tkGood        tkShape = iota
+	tkBadSig              // signature bytes flipped
+	tkAlgNone             // alg "none", empty signature
+	tkAlgHS256            // HS256 keyed with the PEM string of the signer
+	tkTwoSegs             // header.payload only
+	tkNoExp               // no exp claim
+	tkNotJSON             // payload segment is not JSON
+	tkNotB64              // payload segment is not base64url
+	tkExtraSeg            // a fourth segment appended to a good token
+	tkSigOtherMsg         // good signature of another payload (signature transplant)
 )
 
 func b64u(b []byte) string { return base64.RawURLEncoding.EncodeToString(b) }
